@@ -376,6 +376,10 @@ class TcpClient(TcpConnection):
         except Exception as e:
             tcp_client.exception(f"client_errors: {e.args}")
 
+            #: The socket of a set-up which has failed is not left open.
+            if self.sock is not None and not self.is_connected:
+                self.sock.close()
+
 
 class SctpClient(TcpClient,SctpConnection):
     def __init__(self, ip_address, port):
@@ -412,6 +416,10 @@ class SctpClient(TcpClient,SctpConnection):
 
         except Exception as e:
             tcp_client.exception(f"client_errors: {e.args}")
+
+            #: The socket of a set-up which has failed is not left open.
+            if self.sock is not None and not self.is_connected:
+                self.sock.close()
 
 
 class TcpServer(TcpConnection):
